@@ -18,6 +18,13 @@ def gen_e2e(ctx):
                             pl = "g%d.%d" % (rng.below(1000), size) if t == "I" else "h" + rng.bytes(size, alphabet=b"ab\r\n\r\nxyz ").hex()
                             ops.append(put(mode, rfc, payload=pl, verb=rng.choice(["STOR", "STOU", "APPE"])))
                         yield eline(c, ops)
+                        # sources whose reads are short in a mixed pattern (a few hundred bytes, then thousands, then one byte ...)
+                        if t == "I":
+                            ops = [connect(tls=bool(tls))]
+                            for chop in ("100.5000", "700.1.3000.8192", "1023.1024.1025", "1.8192"):
+                                ops.append(put(mode, rfc, payload="g%d.%d" % (rng.below(1000), rng.choice([20000, 50000])), chop=chop))
+                            yield eline(c, ops)
+    ctx["scopes"].append("real-socket uploads with mixed short source reads (100.5000, 700.1.3000.8192, 1023.1024.1025, 1.8192) x plain / TLS x four methods")
     ctx["scopes"].append("real-socket uploads (plain, TLS 1.2, TLS 1.3) x four methods x both types x resumption on / off x sizes 0..100000; the peer reports whether it saw the TLS close-notify")
 
 def gen_conc(ctx):
